@@ -162,7 +162,7 @@ func H_C17_footprint() {
 	m := vNondetMap(spec)
 	k := vNondetString(1, 1, "ab")
 	ms, _ := NewMapXmlSeq([]byte("<r " + k + "=\"1\"><!--c--><" + k + ">x</" + k + "><b/></r>"))
-	op := vChoose(13)
+	op := vChoose(15)
 	wl := make([]interface{}, 33+vChoose(2))
 	for i := range wl {
 		wl[i] = "v"
@@ -198,6 +198,14 @@ func H_C17_footprint() {
 		case 7:
 			_ = Map(m).LeafNodes()
 			_, _ = Map(m).Copy()
+		case 13: // queries that miss, and the formatter
+			_, _ = Map(m).ValueForPath("zz.nope")
+			_, _ = Map(m).Elements("zz.nope")
+			_, _ = Map(m).Attributes("zz")
+			_, _ = Map(m).ValueForKey("nope")
+		case 14:
+			_, _ = BeautifyXml([]byte("<r "+k+"=\"1\"><"+k+">x&amp;</"+k+"></r>"), "", " ")
+			_, _ = NewMapFormattedXmlSeq([]byte("<r>\n <" + k + "/>\n</r>"))
 		case 12: // more results than the initial size of the result buffer
 			_, _ = wide.ValuesForPath("a")
 			_, _ = wide.ValuesForKey("a")
